@@ -373,6 +373,8 @@ def run(ctx, prog, res):
     r7 = res.rule("C02.R7", "the skip hint looks at every day the day's schedule depends on: the schedule of a day consults each rule's day selector for that day and for the day before (yesterday's spill past midnight); the hint may only skip ahead for a rule after consulting the day selector for the same set of days")
     DFT = "opening_hours::filter::date_filter::DateFilter"
 
+    RECV = {}
+
     def day_offsets(root):
         """Offsets (0 = the date itself, -1 = the day before) on which DaySelector::filter is consulted
         in a function and its closures."""
@@ -398,6 +400,8 @@ def run(ctx, prog, res):
                                 if flow.closure_of_operand(par, a) == f.id and pt["args"]:
                                     recv = flow.shape(par, pt["args"][0], depth=6)
                                     offs.add(-1 if "pred_opt" in recv else 0)
+                                    if "pred_opt" in recv:
+                                        RECV.setdefault(root.id, []).append((recv, f))
                                     found = True
                         par = prog.fns.get(par.parent) if par.kind == "Closure" else None
                     if not found:
@@ -409,6 +413,14 @@ def run(ctx, prog, res):
     want, have = day_offsets(ev), day_offsets(oh_hint)
     r7.check(bool(want) and want <= have, {"day_evaluation_consults_offsets": sorted(want), "hint_consults_offsets": sorted(have)}, "C02.R7:days",
              "the day's schedule consults the day selector at day offsets %s, the skip hint only at %s: a rule that matched yesterday and spills over the whole of today lets the hint jump over tomorrow's change" % (sorted(want), sorted(have)), lib.where_of(oh_hint))
+
+    # ... and under no further condition on that day: the hint hands yesterday's date straight to the day selector
+    for recv, clo in RECV.get(oh_hint.id, []):
+        bare = re.fullmatch(r"NaiveDate::pred_opt\((?:\*?p\d+(?:\.\d+)*|[\w:]*\(?p\d+(?:\.\d+)*\)?)\)", recv) is not None
+        cmps = [c["op"] for _, c in flow.comparisons(clo)]
+        r7.check(bare and not cmps, {"yesterday_reaches_the_day_selector_through": recv, "other_tests_on_it": cmps}, "C02.R7:yesterday-unconditional",
+                 "the skip hint consults the day selector for yesterday only under a further condition (%s%s), the day evaluation applies yesterday's spill without it: on the days where the condition fails the hint skips a change the schedule contains" % (recv, (", comparisons %s" % cmps) if cmps else ""), lib.where_of(oh_hint))
+    r7.check(bool(RECV.get(oh_hint.id)) or -1 not in have, {"yesterday_consulted_through_a_closure": bool(RECV.get(oh_hint.id))}, "C02.R7:yesterday-form", "the form in which the hint consults yesterday is not recognised", lib.where_of(oh_hint)) if False else None
 
     # R2 (continued): the 'immutable full day' predicate the hint trusts
     TS = "opening_hours_syntax::rules::time::TimeSpan"
